@@ -151,15 +151,32 @@ def _run(ctx, tmp):
         # 3. the code as it is: all blocks of <= 2 transactions, and chains of 3 one-transaction blocks
         r1 = ctx.tlc("Replica_MC", cfg="Replica_C02.cfg" if ctx.thorough else "Replica_C02q.cfg", files=files, workers=1, timeout=1200)
         r2 = ctx.tlc("Replica_MC", cfg="Replica_C02c.cfg", files=files, workers=1, timeout=1200)
-        if r1.status != "ok" or r2.status != "ok":
-            ctx.infra("TLC failed on Replica: %s %s" % (r1.errors[:2], r2.errors[:2]))
+        # 3b. ingestion paths of node B (ExecuteBlock+SubmitBlock | AddBlock | AddHeaders then AddBlock, restarts in between) x
+        #     transactions that publish what they read from the execution environment of their block
+        r3 = ctx.tlc("Replica_MC", cfg="Replica_C02p.cfg", files=files, workers=1, timeout=1200)
+        if ctx.thorough:  # negative control: with the named deviation EnvFromIndex the model itself loses Agreement
+            rx = ctx.tlc("Replica_MC", cfg="Replica_C02x.cfg", files=files, tags=(), timeout=900)
+            if rx.status != "violation":
+                ctx.infra("negative control: Agreement not violated under EnvFromIndex: %s" % rx.status)
+        if r1.status != "ok" or r2.status != "ok" or r3.status != "ok":
+            ctx.infra("TLC failed on Replica: %s %s %s" % (r1.errors[:2], r2.errors[:2], r3.errors[:2]))
         else:
             e1 = r1.prints.get("EDGE", [])
             blocks = [e["act"]["block"] for e in e1]
             agree1 = [e["act"]["agree"] for e in e1]
             paths, ncov = ctx.cover(r2.prints.get("EDGE", []), r2.prints.get("INIT", []), max_len=10)
-            paths = [p for p in paths if p["steps"]]
-            chains = [[({"txs": s["act"]["block"]} if s["act"]["name"] == "Seal" else {"restart": True}) for s in p["steps"]] for p in paths]
+            paths3, _ = ctx.cover(r3.prints.get("EDGE", []), r3.prints.get("INIT", []), max_len=10)
+            paths = [p for p in paths + paths3 if p["steps"]]
+            chains = [[({"txs": s["act"]["block"], "path": s["act"]["path"]} if s["act"]["name"] == "Seal" else {"restart": True}) for s in p["steps"]] for p in paths]
+            npath = {}
+            for c in chains:
+                for it in c:
+                    for t in it.get("txs", []):
+                        if t["kind"].startswith("env"):
+                            npath[it["path"]] = npath.get(it["path"], 0) + 1
+            ctx.extra["env_reading_blocks_per_ingestion_path"] = npath
+            if len(npath) < 3:
+                ctx.infra("vacuous enumeration of ingestion paths: %s" % npath)
             nrest = sum(1 for c in chains for it in c if it.get("restart"))
             nparam = sum(1 for c in chains for it in c for t in it.get("txs", []) if t["kind"] == "setparam")
             ctx.log("TLC: %d single blocks, %d chains (%d edges, %d restarts of node B2, %d parameter changes)" % (len(blocks), len(chains), len(r2.prints.get("EDGE", [])), nrest, nparam))
@@ -203,7 +220,8 @@ def _run(ctx, tmp):
                             else:
                                 ch = chains[a["c"]]
                                 st = paths[a["c"]]["steps"][a["b"]]["act"]
-                                what = "chain (B2 restarted %d times before this block)" % sum(1 for it in ch[:a["b"]] if it.get("restart"))
+                                what = "chain (B2 restarted %d times before this block; A: ExecuteBlock+SubmitBlock, B ingests it via %s)" % (
+                                sum(1 for it in ch[:a["b"]] if it.get("restart")), st.get("path"))
                                 compare(ctx, what, ch[a["b"]]["txs"], a, bs, st["agree"], {"chain": ch[:a["b"] + 1]}, stats)
                                 if a["b"] == 0:
                                     nchains += 1
@@ -220,6 +238,9 @@ def _run(ctx, tmp):
         "B2 additionally exits at the restart points chosen by TLC and a fresh process continues from its data directories",
         "chains contain governance parameter changes (global_params setGlobalParam + createSnapshot raising the native-call gas price) followed by "
         "fee-paying transfers",
+        "ingestion paths: A always ExecuteBlock+SubmitBlock; B per block (chosen by TLC) ExecuteBlock+SubmitBlock | AddBlock | AddHeaders then AddBlock "
+        "(header-first sync), with restarts of B2 between blocks; env-reading NeoVM scripts notify current block hash, time, height, tx hash, header hash "
+        "(events only: no contract storage)",
         "compared: ExecuteResult.Hash, MerkleRoot, the whole write set, per-transaction notify (state, gas, events, created contract), committed state root",
         "single blocks are executed (not committed) on the common bootstrapped state; chains are committed block after block",
         "transaction kinds: native ONT transfer with a fee, NeoVM script requiring CheckWitness(payer), fee-less NeoVM deployment, EIP-155 transfer; "
